@@ -86,6 +86,14 @@ def scaledPxGeneric (over : Bool) (px : Nat → Nat → C16) (sw sh dw dh dx dy 
     out := uint8(pr >> 8)`, stored three times with alpha `0xff`. -/
 def grayStore (y : Nat) : P8 := ⟨u8 (y * 0x101 / 256), u8 (y * 0x101 / 256), u8 (y * 0x101 / 256), 0xff⟩
 
+/-- The fast paths `scale_RGBA_YCbCr4xx_Src` (source `*image.YCbCr`, always opaque), one channel: "an inline version of
+    image/color/ycbcr.go's YCbCr.RGBA method" — `p := v >> 8; if p < 0 { p = 0 } else if p > 0xffff { p = 0xffff };
+    dst.Pix[d] = uint8(p >> 8)` (`>>` on a signed `int`: floor division). -/
+def ycbcrStoreChan (v : Int) : Nat :=
+  let p := v / 256
+  let p := if p < 0 then 0 else if p > 0xffff then 0xffff else p
+  u8 (p / 256).toNat
+
 /-- The scaled image (an `*image.RGBA`). -/
 def scale (over : Bool) (src : Img8) (dw dh : Nat) : Img8 :=
   { kind := .rgba, w := dw, h := dh,
@@ -102,6 +110,37 @@ def conv : Kind → P8 → C16
 
 /-- The image as the block renderers read it (`At(x, y).RGBA()`; outside the bounds the zero colour). -/
 def Img8.view (img : Img8) : Img := ⟨img.w, img.h, img.px.map (conv img.kind)⟩
+
+/-- A source of ANY concrete type as the scaler's generic path and the block renderers see it (round 4): its size and,
+    row major, what `At(x, y).RGBA()` returns for each pixel (`Bounds().Min = (0,0)`). -/
+structure ImgG where
+  w : Nat
+  h : Nat
+  px : Array C16
+
+def ImgG.pix (img : ImgG) (x y : Nat) : C16 := img.px.getD (y * img.w + x) ⟨0, 0, 0, 0⟩
+
+/-- A stored NRGBA / RGBA image seen that way. -/
+def Img8.generic (img : Img8) : ImgG := ⟨img.w, img.h, img.px.map (conv img.kind)⟩
+
+/-- The image scaled by the generic path (an `*image.RGBA`). -/
+def scaleG (over : Bool) (src : ImgG) (dw dh : Nat) : Img8 :=
+  { kind := .rgba, w := dw, h := dh,
+    px := Array.ofFn (n := dh * dw) fun i => scaledPxGeneric over src.pix src.w src.h dw dh (i.val % dw) (i.val / dw) }
+
+/-- `resizeImage` on a source of any type, as the block renderers then read the result (`At(x, y).RGBA()`): the
+    source itself when it fits, else the generic nearest-neighbour scaling (`isOpaque`: what `opaque(src)` answers —
+    immaterial on the fresh destination, `Props.C20Pixels.over_on_fresh_is_src`). -/
+def resizeImgGWith (cfg : Cfg) (F : FloatOps) (src : ImgG) (isOpaque : Bool) (w h cellW cellH : Nat) : Except Panic Img := do
+  let columns ← cells cfg.colsUp src.w cellW
+  let lines ← cells cfg.linesUp src.h cellH
+  if evalFit cfg.fit columns w lines h then
+    return ⟨src.w, src.h, src.px⟩
+  let d := runArms F cfg.arms (F.cmp w columns h lines) src.w src.h w columns h lines
+  return (scaleG (!isOpaque) src d.1 d.2).view
+
+def resizeImgG (F : FloatOps) (src : ImgG) (isOpaque : Bool) (w h cellW cellH : Nat) : Except Panic Img :=
+  resizeImgGWith genCfg F src isOpaque w h cellW cellH
 
 /-- `resizeImage(img, w, h, cellW, cellH)` on the image itself (shape of the code from `cfg`, float steps `F`):
     the image as it is when it fits, else the nearest-neighbour scaling to the computed pixel size (`draw.Over`
